@@ -254,18 +254,10 @@ func cmdCheck(args []string) int {
 			}
 			continue
 		}
-		nonBounded++
-		if o.Kind == "cover" {
-			covers++
-		}
-		if o.Status == "discharged" {
-			discharged++
-			bySolver[o.Solver]++
-			continue
-		}
-		if o.Kind == "effect" {
+		if o.Kind == "effect" && o.Status != "discharged" {
 			// effect and wiring obligations have no input region: a recorded finding names the failing call site itself
-			// (function + callee + ordinal); any other failing call site is still a violation
+			// (function + callee + ordinal); any other failing call site is still a violation.
+			// Like the canaries of region findings, a listed site is reported under known findings, not counted as an obligation
 			listed := false
 			for _, kf := range regionFor[o.Name] {
 				if kf.Region == "" {
@@ -276,6 +268,15 @@ func cmdCheck(args []string) int {
 			if listed {
 				continue
 			}
+		}
+		nonBounded++
+		if o.Kind == "cover" {
+			covers++
+		}
+		if o.Status == "discharged" {
+			discharged++
+			bySolver[o.Solver]++
+			continue
 		}
 		viols = append(viols, viol{o: o})
 	}
